@@ -279,6 +279,11 @@ class Program:
                 st = normalize.normalize_module(mod.tree, None if mixin else _PROPERTY_NAMES)
                 if st:
                     self.inlined.setdefault(rel, {}).update(st)
+                    if not mixin:
+                        from .inline import propagate_aliases
+                        k = propagate_aliases(mod.tree, _PROPERTY_NAMES)
+                        if k:
+                            self.inlined[rel]["aliases_propagated"] = self.inlined[rel].get("aliases_propagated", 0) + k
                 if st.get("dispatch_tables"):
                     # calls through a table entry are direct calls now: inline the new private helpers among them
                     from .inline import inline_module
